@@ -22,7 +22,7 @@ fn next_up(x: f32, k: i64) -> f32 {
 
 pub fn run(tier: Tier) -> Report {
     let rep = Report::new("C19", tier);
-    rep.set_rule("complete grids: (1) ltwh->universal->ltwh over magnitudes^4; (2) polygon/area/centre/radius of every box of the size x angle menu; (2b) every sequence of <= 4 (thorough 5) operations from {gen_vertices, rotate_mut x2, set xc / yc / height / aspect, angle=None, clone, rotate} on 3 start boxes: the polygon cached by gen_vertices() on a rotated box and the result of get_vertices() are the polygon of the box as it is at that moment; (3) every coordinate x base x delta x both argument orders for both box types; (4) normalize_angle over f32 bit patterns in [-1000,1000] (thorough: every pattern; quick: stride + neighbourhoods of multiples of 2*pi). A case is non-trivial when it is not the identity comparison / zero angle.");
+    rep.set_rule("complete grids: (1) ltwh->universal->ltwh over magnitudes^4 (confidences 1, 0, .3, .5; by reference, by value, through the ltwh constructors); (2) polygon/area/centre/radius of every box of the size x angle menu; (2b) every sequence of <= 4 (thorough 5) operations from {gen_vertices, rotate_mut x2, set xc / yc / height / aspect, angle=None, clone, rotate} on 3 start boxes: the polygon cached by gen_vertices() on a rotated box and the result of get_vertices() are the polygon of the box as it is at that moment; (3) every coordinate x base x delta x both argument orders for both box types; (4) normalize_angle over f32 bit patterns in [-1000,1000] (thorough: every pattern; quick: stride + neighbourhoods of multiples of 2*pi). A case is non-trivial when it is not the identity comparison / zero angle.");
     rep.assume("reference arithmetic in f64; decisions asserted only outside a rounding margin");
 
     // (1) round trip
@@ -50,6 +50,20 @@ pub fn run(tier: Tier) -> Report {
                             let same5 = |x: &Universal2DBox, y: &Universal2DBox| x.xc == y.xc && x.yc == y.yc && x.angle == y.angle && x.aspect == y.aspect && x.height == y.height;
                             if !same5(&u, &u2) || !same5(&u, &u3) || u2.confidence != 1.0 || u3.confidence != 0.5 || u.angle.is_some() {
                                 rep.violation(Violation { key: "roundtrip/constructors-differ".into(), what: format!("as_xyaah {u:?}, ltwh {u2:?}, ltwh_with_confidence {u3:?}"), replay: case.clone() });
+                            }
+                            // the same round trip for boxes that carry a detection confidence other than 1
+                            for conf in [0.0f32, 0.3, 0.5] {
+                                let bc = BoundingBox::new_with_confidence(l * sl, t * st, w, h, conf);
+                                let uc = bc.as_xyaah();
+                                let by_ref = BoundingBox::try_from(&uc).ok();
+                                let by_val = BoundingBox::try_from(uc.clone()).ok();
+                                let from_ctor = BoundingBox::try_from(&Universal2DBox::ltwh_with_confidence(l * sl, t * st, w, h, conf)).ok();
+                                for (how, r) in [("try_from(&)", &by_ref), ("try_from(value)", &by_val), ("ltwh_with_confidence -> try_from", &from_ctor)] {
+                                    match r {
+                                        Some(x) if x.confidence == conf && uc.confidence == conf => {}
+                                        other => rep.violation(Violation { key: "roundtrip/confidence".into(), what: format!("a box with confidence {conf} came back through {how} as {other:?} (universal form {uc:?})"), replay: case.clone() }),
+                                    }
+                                }
                             }
                             if BoundingBox::try_from(u.clone()).ok().map(|x| (x.left, x.top, x.width, x.height)) != back.as_ref().ok().map(|x| (x.left, x.top, x.width, x.height)) {
                                 rep.violation(Violation { key: "roundtrip/try_from-by-value-differs".into(), what: format!("{u:?}"), replay: case.clone() });
